@@ -9,6 +9,7 @@ import (
 
 	"github.com/prometheus/prometheus/model/labels"
 
+	"github.com/thanos-io/thanos/pkg/store"
 	"github.com/thanos-io/thanos/pkg/store/storepb"
 
 	"verif/harness/simkit"
@@ -46,6 +47,9 @@ func runC05(x *simkit.Exec) {
 		ms         []*labels.Matcher
 		mint, maxt int64
 		label      string
+		// addrSets: the querier's store-match[] selection, sets of matchers on __address__ handed to the
+		// proxy through the request context (nil: no selection)
+		addrSets [][]*labels.Matcher
 	}
 	// interesting instants: the boundaries of the stores' data
 	var instants []int64
@@ -79,6 +83,29 @@ func runC05(x *simkit.Exec) {
 			r.mint, r.maxt = r.maxt, r.mint
 		}
 		r.label = []string{"__name__", "a", "e", "r", "z"}[x.Draw("lvlabel", 5)]
+		if x.Bool("storematch", 1, 3) {
+			for k, n := 0, x.Range("storematch.sets", 1, 2); k < n; k++ {
+				var set []*labels.Matcher
+				for j, m := 0, x.Range("storematch.matchers", 1, 2); j < m; j++ {
+					addr := ds.Stores[x.Draw("storematch.store", len(ds.Stores))].Name + ":10901"
+					switch x.Draw("storematch.type", 5) {
+					case 0:
+						set = append(set, labels.MustNewMatcher(labels.MatchEqual, "__address__", addr))
+					case 1:
+						set = append(set, labels.MustNewMatcher(labels.MatchNotEqual, "__address__", addr))
+					case 2:
+						other := ds.Stores[x.Draw("storematch.store2", len(ds.Stores))].Name + ":10901"
+						set = append(set, labels.MustNewMatcher(labels.MatchRegexp, "__address__", addr+"|"+other))
+					case 3:
+						set = append(set, labels.MustNewMatcher(labels.MatchNotRegexp, "__address__", "store-s[0-"+fmt.Sprint(x.Draw("storematch.upto", 5))+"].*"))
+					default:
+						// a matcher on another name says nothing about addresses
+						set = append(set, labels.MustNewMatcher(labels.MatchEqual, "e", "nowhere"))
+					}
+				}
+				r.addrSets = append(r.addrSets, set)
+			}
+		}
 		reqs = append(reqs, r)
 	}
 	pc := proxyConf{Lazy: x.Bool("lazy", 1, 2), LazyBuf: 2, Timeout: 10 * time.Second}
@@ -90,7 +117,29 @@ func runC05(x *simkit.Exec) {
 		ctx, cancel := context.WithCancel(context.Background())
 		defer cancel()
 		s.Go("client", func() {
+			base := ctx
 			for _, r := range reqs {
+				ctx := base
+				if r.addrSets != nil {
+					ctx = context.WithValue(base, store.StoreMatcherKey, r.addrSets)
+				}
+				eligible := func(addr string) bool {
+					if r.addrSets == nil {
+						return true
+					}
+					for _, set := range r.addrSets {
+						ok := true
+						for _, m := range set {
+							if m.Name == "__address__" && !m.Matches(addr) {
+								ok = false
+							}
+						}
+						if ok {
+							return true
+						}
+					}
+					return false
+				}
 				n := cl.beginRequest()
 				var err error
 				switch r.kind {
@@ -110,12 +159,22 @@ func runC05(x *simkit.Exec) {
 				}
 				skipped := 0
 				for i, c := range cl.clients {
+					addr, _ := c.Addr()
 					if len(c.callsOf(n, r.kind)) > 0 {
+						if !eligible(addr) {
+							s.Violate("store-selection-by-address-honoured", r.kind+":unselected-store-contacted",
+								"%s request with store matchers %v contacted %s, whose address matches none of the sets", r.kind, addrSetsString(r.addrSets), addr)
+							return
+						}
 						continue
 					}
 					skipped++
 					s.Probe("c05.store_skipped")
 					st := ds.Stores[i]
+					if !eligible(addr) {
+						s.Probe("c05.store_skipped_by_address")
+						continue
+					}
 					if wit, holds := holdsMatch(st, r.ms, r.mint, r.maxt); holds {
 						advMin, advMax := c.TimeRange()
 						why := "labels"
@@ -133,8 +192,11 @@ func runC05(x *simkit.Exec) {
 							}
 						}
 						sort.Strings(ops)
+						if r.addrSets != nil {
+							why += ":store-matchers"
+						}
 						s.Violate("skipped-store-holds-no-match", fmt.Sprintf("%s:%s:%s", r.kind, why, strings.Join(ops, ",")),
-							"%s request matchers=%s range=[%d,%d] did not contact %s (advertised label sets %v, time range [%d,%d]) although it holds %s\nstores: %v",
+							"%s request (store matchers "+strings.ReplaceAll(addrSetsString(r.addrSets), "%", "%%")+") matchers=%s range=[%d,%d] did not contact %s (advertised label sets %v, time range [%d,%d]) although it holds %s\nstores: %v",
 							r.kind, matchersString(r.ms), r.mint, r.maxt, st.Name, c.LabelSets(), advMin, advMax, wit, ds.describe()["stores"])
 						return
 					}
@@ -152,4 +214,15 @@ func runC05(x *simkit.Exec) {
 			x.Troublef("c05: scheduler stuck, parked=%v", s.ParkedIDs())
 		}
 	})
+}
+
+func addrSetsString(sets [][]*labels.Matcher) string {
+	if sets == nil {
+		return "none"
+	}
+	var parts []string
+	for _, set := range sets {
+		parts = append(parts, matchersString(set))
+	}
+	return strings.Join(parts, " or ")
 }
